@@ -1,4 +1,5 @@
 from fw import PropertyCheck
+import fam_world
 import fam_guards
 
 
@@ -9,9 +10,11 @@ class Check(PropertyCheck):
             "binary-searched to the smallest accepted value and tried at -1/0/+1; fully random inputs incl. "
             "absent limits, zero belief price, overflowing normalisation.  Non-trivial = max_spread given and the "
             "guard decided (Ok or MaxSpread).  Distinct by input.")
+    rule_world = 'plus world histories'
     modelled = ["Decimal -> Decimal256 conversion is modelled as value-preserving; C18 covers it",
                 "system level (offer/ask decimals by position, executed amounts) is covered by the world family"]
     assumptions = ["amounts are 128-bit"]
 
     def families(self, rng, tier):
-        return [("guards.assert_max_spread", fam_guards.spread_cases(rng, tier))]
+        return [("guards.assert_max_spread", fam_guards.spread_cases(rng, tier)),
+                ("world.guards", fam_world.guard_histories(rng, tier))]
